@@ -1,112 +1,98 @@
-(* PasswordCfb_proofs.v — proofs for property C20, OOXML part: the signature check of
-   Header::from_reader (byte level), Directory::from_slice on a written entry, has_directory over
-   a directory array, check_for_password_protected. *)
-From Calamine Require Import Prelude PasswordCfb.
+(* PasswordCfb_proofs.v — proofs for property C20, OOXML part, over the compound-file model of
+   property C13 (Cfb.v / Cfb_proofs.v):
+     the signature check of Header::from_reader on bytes (a zip is never a compound file),
+     has_directory over a directory array, Directory::from_slice on a written entry,
+     check_for_password_protected on the BYTES of a written container in ANY valid layout
+     (composition with C13's written_names_listed / cfb_new_written), its converse, totality. *)
+From Calamine Require Import Prelude Utf16 Utf16_proofs Cfb Cfb_proofs PasswordCfb.
 Open Scope N_scope.
 
 (* ================================================================== signature check *)
-Lemma firstn8_firstn512 : forall f : list N, firstn 8 (firstn 512 f) = firstn 8 f.
-Proof. intros f. rewrite firstn_firstn. reflexivity. Qed.
+Lemma header_non_ole : forall f,
+  list_eqb (firstn 8 f) SIGNATURE = false ->
+  header_from_reader f = Err ERR_IO \/ header_from_reader f = Err ERR_OLE.
+Proof.
+  intros f H. unfold header_from_reader, read_exact.
+  destruct (lenN f <? 512); [left; reflexivity|right].
+  cbn [obind]. unfold takeN. rewrite firstn_firstn.
+  change (Nat.min 8 (N.to_nat 512)) with 8%nat. rewrite H. reflexivity.
+Qed.
 
 (* MAIN (byte level): input that does not start with the eight OLE signature bytes is rejected by
-   Header::from_reader — with Io when it is shorter than 512 bytes, with Ole otherwise *)
-Theorem non_ole_rejected : forall f,
-  bytes_eqb (firstn 8 f) OLE_SIG = false ->
-  header_from_reader f = Err E_IO \/ header_from_reader f = Err E_OLE.
+   Cfb::new — with Io when it is shorter than 512 bytes, with Ole otherwise — for any fuel *)
+Theorem non_ole_rejected : forall f fuel,
+  list_eqb (firstn 8 f) SIGNATURE = false ->
+  cfb_new fuel f = Err ERR_IO \/ cfb_new fuel f = Err ERR_OLE.
 Proof.
-  intros f H. unfold header_from_reader.
-  destruct (length f <? 512)%nat; [left; reflexivity|right].
-  rewrite firstn8_firstn512, H. reflexivity.
+  intros f fuel H. unfold cfb_new.
+  destruct (header_non_ole f H) as [E|E]; rewrite E; [left|right]; reflexivity.
 Qed.
 
 (* a zip local-file-header signature is not the OLE signature *)
-Lemma zip_not_ole : forall f, firstn 4 f = ZIP_LOCAL -> bytes_eqb (firstn 8 f) OLE_SIG = false.
+Lemma zip_not_ole : forall f, firstn 4 f = ZIP_LOCAL -> list_eqb (firstn 8 f) SIGNATURE = false.
 Proof.
   intros f H. destruct f as [|a [|b [|c [|d f]]]]; try discriminate.
   cbn [firstn] in H. unfold ZIP_LOCAL in H. inversion H. subst. reflexivity.
 Qed.
 
-Theorem zip_rejected : forall f, firstn 4 f = ZIP_LOCAL ->
-  header_from_reader f = Err E_IO \/ header_from_reader f = Err E_OLE.
-Proof. intros f H. apply non_ole_rejected. apply zip_not_ole. exact H. Qed.
+Theorem zip_rejected : forall f fuel, firstn 4 f = ZIP_LOCAL ->
+  cfb_new fuel f = Err ERR_IO \/ cfb_new fuel f = Err ERR_OLE.
+Proof. intros f fuel H. apply non_ole_rejected. apply zip_not_ole. exact H. Qed.
 
-Section CfbNew.
-Variable load : header -> list N -> outcome (list N).
-Variable after : header -> list dentry -> list N -> outcome unit.
-
-Lemma cfb_dirs_header_err : forall f e, header_from_reader f = Err e ->
-  cfb_dirs load after f = Err e.
-Proof. intros f e H. unfold cfb_dirs. rewrite H. reflexivity. Qed.
-
-(* MAIN (ooxml, converse): whatever the rest of Cfb::new does, a file that does not start with
-   the OLE signature — every zip, hence every unencrypted xlsx / xlsb — passes the password check
-   and the reader goes on to open the zip *)
-Theorem non_ole_not_password : forall f zip,
-  bytes_eqb (firstn 8 f) OLE_SIG = false ->
-  ooxml_check (cfb_dirs load after f) = Ok tt /\
-  ooxml_new (cfb_dirs load after f) zip = zip.
+(* MAIN (ooxml, converse, bytes): a file that does not start with the OLE signature — every zip,
+   hence every unencrypted xlsx / xlsb — passes the password check and the reader goes on to open
+   the zip *)
+Theorem non_ole_not_password : forall f fuel zip,
+  list_eqb (firstn 8 f) SIGNATURE = false ->
+  ooxml_check_bytes fuel f = Ok tt /\ ooxml_new_bytes fuel f zip = zip.
 Proof.
-  intros f zip H. destruct (non_ole_rejected f H) as [E|E];
-    rewrite (cfb_dirs_header_err f _ E); split; reflexivity.
+  intros f fuel zip H. unfold ooxml_new_bytes, ooxml_check_bytes, ooxml_new, cfb_dirs.
+  destruct (non_ole_rejected f fuel H) as [E|E]; rewrite E; split; reflexivity.
 Qed.
 
-Corollary zip_not_password : forall f zip, firstn 4 f = ZIP_LOCAL ->
-  ooxml_check (cfb_dirs load after f) = Ok tt /\
-  ooxml_new (cfb_dirs load after f) zip = zip.
-Proof. intros f zip H. apply non_ole_not_password. apply zip_not_ole. exact H. Qed.
-
-Corollary zip_no_false_positive : forall f zip, firstn 4 f = ZIP_LOCAL ->
-  (header_from_reader f = Err E_IO \/ header_from_reader f = Err E_OLE) /\
-  ooxml_check (cfb_dirs load after f) = Ok tt /\
-  ooxml_new (cfb_dirs load after f) zip = zip.
+Corollary zip_no_false_positive : forall f fuel zip, firstn 4 f = ZIP_LOCAL ->
+  (cfb_new fuel f = Err ERR_IO \/ cfb_new fuel f = Err ERR_OLE) /\
+  ooxml_check_bytes fuel f = Ok tt /\
+  ooxml_new_bytes fuel f zip = zip.
 Proof.
-  intros f zip H. split; [exact (zip_rejected f H)|]. exact (zip_not_password f zip H).
+  intros f fuel zip H. split; [exact (zip_rejected f fuel H)|].
+  apply non_ole_not_password. apply zip_not_ole. exact H.
 Qed.
-End CfbNew.
 
 (* ================================================================== has_directory *)
-Lemma bytes_eqb_refl : forall a, bytes_eqb a a = true.
-Proof. induction a as [|x a IH]; cbn [bytes_eqb]; [reflexivity|]. rewrite N.eqb_refl. exact IH. Qed.
-
-Lemma bytes_eqb_eq : forall a b, bytes_eqb a b = true -> a = b.
-Proof.
-  induction a as [|x a IH]; intros [|y b] H; cbn [bytes_eqb] in H; try discriminate; [reflexivity|].
-  apply andb_prop in H. destruct H as [H1 H2]. apply N.eqb_eq in H1. rewrite (IH b H2), H1.
-  reflexivity.
-Qed.
+(* the directory-scan model of this file is Cfb.has_directory on the directory array *)
+Lemma has_directory_is_cfb : forall cf name,
+  Cfb.has_directory cf name = PasswordCfb.has_directory (directories cf) name.
+Proof. reflexivity. Qed.
 
 Lemma has_directory_iff : forall dirs name,
-  has_directory dirs name = true <-> exists d, In d dirs /\ d_name d = name.
+  PasswordCfb.has_directory dirs name = true <-> exists d, In d dirs /\ d_name d = name.
 Proof.
-  intros dirs name. unfold has_directory. rewrite existsb_exists. split.
-  - intros (d & Hin & H). exists d. split; [exact Hin|]. apply bytes_eqb_eq. exact H.
-  - intros (d & Hin & H). exists d. split; [exact Hin|]. rewrite H. apply bytes_eqb_refl.
+  intros dirs name. unfold PasswordCfb.has_directory. rewrite existsb_exists. split.
+  - intros (d & Hin & H). exists d. split; [exact Hin|]. apply list_eqb_eq. exact H.
+  - intros (d & Hin & H). exists d. split; [exact Hin|]. apply list_eqb_eq. exact H.
 Qed.
 
 (* MAIN (ooxml, positive, over a parsed directory): an entry named EncryptedPackage at any index,
-   among any other entries (any names, starts, sizes; storages such as \006DataSpaces, the
-   EncryptionInfo stream, the root entry), makes the check answer Password; the zip is never
-   opened *)
+   among any other entries, makes the check answer Password; the zip is never opened *)
 Theorem encrypted_package_is_password : forall before d after_ zip,
   d_name d = ENCRYPTED_PACKAGE ->
   ooxml_check (Ok (before ++ d :: after_)) = Err E_PASSWORD /\
   ooxml_new (Ok (before ++ d :: after_)) zip = Err E_PASSWORD.
 Proof.
   intros before d after_ zip H.
-  assert (Hd : has_directory (before ++ d :: after_) ENCRYPTED_PACKAGE = true).
+  assert (Hd : PasswordCfb.has_directory (before ++ d :: after_) ENCRYPTED_PACKAGE = true).
   { apply has_directory_iff. exists d. split; [|exact H]. apply in_or_app. right. left.
     reflexivity. }
   unfold ooxml_new, ooxml_check. rewrite Hd. split; reflexivity.
 Qed.
 
-(* converse over a parsed directory: no entry of that name, no Password (and an unreadable
-   compound file is not reported either) *)
 Theorem no_encrypted_package_not_password : forall cfb,
   (forall dirs, cfb = Ok dirs -> forall d, In d dirs -> d_name d <> ENCRYPTED_PACKAGE) ->
   ooxml_check cfb <> Err E_PASSWORD.
 Proof.
   intros cfb H. unfold ooxml_check. destruct cfb as [dirs|e| |]; try discriminate.
-  destruct (has_directory dirs ENCRYPTED_PACKAGE) eqn:E; [|discriminate].
+  destruct (PasswordCfb.has_directory dirs ENCRYPTED_PACKAGE) eqn:E; [|discriminate].
   apply has_directory_iff in E. destruct E as (d & Hin & Hd).
   exfalso. exact (H dirs eq_refl d Hin Hd).
 Qed.
@@ -115,26 +101,29 @@ Qed.
 Lemma utf16le_ascii_length : forall s, length (utf16le_ascii s) = (2 * length s)%nat.
 Proof. induction s as [|c s IH]; cbn [utf16le_ascii length]; lia. Qed.
 
-Lemma ascii_not_surrogate : forall c, c <= 127 -> is_high c = false /\ is_low c = false.
-Proof. intros c H. unfold is_high, is_low. split; lia. Qed.
+Lemma ascii_not_surr : forall c, c <= 127 -> is_surr c = false.
+Proof. intros c H. unfold is_surr. lia. Qed.
 
-(* the decoder over an ASCII name followed by the terminator *)
-Lemma utf16_sm_ascii : forall s rest,
+(* decode_without_bom_handling over an ASCII name followed by the terminator, cut at the NUL *)
+Lemma decode_name_ascii : forall s rest,
   forallb (fun c => (1 <=? c) && (c <=? 127)) s = true ->
-  until_nul (utf16_sm false (utf16le_ascii s ++ 0 :: 0 :: rest) None 0) = s.
+  decode_name (utf16le_ascii s ++ 0 :: 0 :: rest) = s.
 Proof.
+  unfold decode_name, utf16le_decode_bytes.
   induction s as [|c s IH]; intros rest H.
-  - cbn [utf16le_ascii app utf16_sm].
-    change (0 * 256 + 0) with 0. change (is_high 0) with false. change (is_low 0) with false.
-    cbn iota. change (0 =? 0) with true. cbn iota. cbn [until_nul].
-    change (0 =? 0) with true. reflexivity.
+  - cbn [utf16le_ascii app units_of_bytes_le].
+    destruct (units_of_bytes_le rest) as [us odd].
+    replace (0 + 256 * 0) with 0 by lia.
+    rewrite (decode_bmp 0 us (ascii_not_surr 0 ltac:(lia))).
+    cbn [app take_until_nul]. change (0 =? 0) with true. reflexivity.
   - cbn [forallb] in H. apply andb_prop in H. destruct H as [Hc Hs].
     assert (Hc1 : 1 <= c) by lia. assert (Hc2 : c <= 127) by lia.
-    cbn [utf16le_ascii app utf16_sm].
-    replace (0 * 256 + c) with c by lia.
-    destruct (ascii_not_surrogate c Hc2) as [Hh Hl]. rewrite Hh, Hl.
-    change (0 =? 0) with true. cbn iota. cbn [until_nul].
-    destruct (c =? 0) eqn:E; [lia|]. rewrite (IH rest Hs). reflexivity.
+    specialize (IH rest Hs).
+    cbn [utf16le_ascii app units_of_bytes_le].
+    destruct (units_of_bytes_le (utf16le_ascii s ++ 0 :: 0 :: rest)) as [us odd].
+    replace (c + 256 * 0) with c by lia.
+    rewrite (decode_bmp c us (ascii_not_surr c Hc2)).
+    cbn [app take_until_nul]. destruct (c =? 0) eqn:E; [lia|]. rewrite IH. reflexivity.
 Qed.
 
 Lemma name_field_shape : forall name pad, (length name <= 31)%nat ->
@@ -150,24 +139,7 @@ Proof.
   rewrite app_length. cbn [length]. rewrite firstn_length, app_length, repeat_length. lia.
 Qed.
 
-Lemma starts_with_ascii : forall p c rest, c <= 127 -> In p [[239; 187; 191]; [255; 254]; [254; 255]] ->
-  starts_with p (c :: rest) = false.
-Proof.
-  intros p c rest Hc Hin. cbn [In] in Hin.
-  destruct Hin as [<-|[<-|[<-|[]]]]; unfold starts_with; cbn [length firstn bytes_eqb];
-    (destruct (c =? _) eqn:E; [lia|reflexivity]).
-Qed.
-
-(* no byte-order mark is sniffed in front of an ASCII name (nor in front of the empty name) *)
-Lemma decode_bom_ascii : forall s rest,
-  forallb (fun c => (1 <=? c) && (c <=? 127)) s = true ->
-  utf16le_decode_bom (utf16le_ascii s ++ 0 :: 0 :: rest)
-  = utf16_sm false (utf16le_ascii s ++ 0 :: 0 :: rest) None 0.
-Proof.
-  intros s rest H. reflexivity.
-Qed.
-
-Lemma firstn_app_exact : forall (A : Type) (a b : list A) n, length a = n -> firstn n (a ++ b) = a.
+Lemma firstn_app_exact' : forall (A : Type) (a b : list A) n, length a = n -> firstn n (a ++ b) = a.
 Proof.
   intros A a b n H. rewrite firstn_app, H, Nat.sub_diag. cbn [firstn].
   rewrite app_nil_r. apply firstn_all2. lia.
@@ -179,30 +151,44 @@ Proof.
   rewrite <- H, skipn_all. reflexivity.
 Qed.
 
+Lemma dir_entry_length : forall name pad mid start size, (length name <= 31)%nat ->
+  length (dir_entry_bytes name pad mid start size) = 128%nat.
+Proof.
+  intros name pad mid start size H. unfold dir_entry_bytes.
+  destruct (name_field_shape name pad H) as (rest & _ & Hl64).
+  rewrite !app_length, Hl64, firstn_length, app_length, repeat_length.
+  cbn [le_bytes length]. lia.
+Qed.
+
+Lemma from_slice_128 : forall buf ss, length buf = 128%nat ->
+  from_slice buf ss =
+  Ok {| d_name := decode_name (firstn 64 buf); d_start := u32_at buf 116;
+        d_len := if ss =? 512 then u32_at buf 120 else u64_at buf 120 |}.
+Proof.
+  intros buf ss H. unfold from_slice. rewrite H.
+  change (128 <? 64)%nat with false. change (128 <? 120)%nat with false.
+  change (128 <? 124)%nat with false. change (128 <? 128)%nat with false. cbn iota.
+  destruct (ss =? 512); reflexivity.
+Qed.
+
 (* MAIN (entry level): Directory::from_slice reads back the name a writer stored, for any ASCII
    name of up to 31 characters, any bytes behind the terminator, any other fields, both sector
    sizes *)
 Theorem directory_from_slice_name : forall name pad mid start size ss,
   ascii_name name = true ->
-  exists s l, directory_from_slice (dir_entry_bytes name pad mid start size) ss
-              = Ok (mkDentry name s l).
+  exists s l, from_slice (dir_entry_bytes name pad mid start size) ss
+              = Ok {| d_name := name; d_start := s; d_len := l |}.
 Proof.
   intros name pad mid start size ss H. unfold ascii_name in H. apply andb_prop in H.
   destruct H as [Hasc Hlen]. apply Nat.leb_le in Hlen.
   destruct (name_field_shape name pad Hlen) as (rest & Hshape & Hl64).
-  assert (Hlen128 : length (dir_entry_bytes name pad mid start size) = 128%nat).
-  { unfold dir_entry_bytes. rewrite !app_length, Hl64, firstn_length, app_length, repeat_length.
-    cbn [le_bytes length]. lia. }
+  rewrite (from_slice_128 _ ss (dir_entry_length name pad mid start size Hlen)).
   assert (Hname : firstn 64 (dir_entry_bytes name pad mid start size) = name_field name pad).
-  { unfold dir_entry_bytes. apply firstn_app_exact. exact Hl64. }
-  unfold directory_from_slice. rewrite Hlen128, Hname, Hshape.
-  rewrite (decode_bom_ascii name rest Hasc), (utf16_sm_ascii name rest Hasc).
-  change (128 <? 64)%nat with false. change (128 <? 120)%nat with false.
-  change (128 <? 124)%nat with false. change (128 <? 128)%nat with false. cbn iota.
-  destruct (ss =? 512); eexists; eexists; reflexivity.
+  { unfold dir_entry_bytes. apply firstn_app_exact'. exact Hl64. }
+  rewrite Hname, Hshape, (decode_name_ascii name rest Hasc). eexists; eexists; reflexivity.
 Qed.
 
-(* chunks(128) over a directory chain made of whole entries *)
+(* chunks_exact(128) over a directory chain made of whole entries *)
 Lemma chunks_aux_concat : forall (ents : list (list N)) fuel,
   Forall (fun e => length e = 128%nat) ents -> (length ents <= fuel)%nat ->
   chunks_aux fuel 128 (concat ents) = ents.
@@ -214,7 +200,7 @@ Proof.
     cbn [concat chunks_aux].
     destruct (e ++ concat ents) as [|x xs] eqn:E.
     + apply app_eq_nil in E. destruct E as [-> _]. discriminate.
-    + rewrite <- E. rewrite (firstn_app_exact _ e (concat ents) _ He).
+    + rewrite <- E. rewrite (firstn_app_exact' _ e (concat ents) _ He).
       rewrite (skipn_app_exact _ e (concat ents) _ He).
       rewrite IH; [reflexivity|exact Hes|cbn [length] in Hf; lia].
 Qed.
@@ -225,42 +211,45 @@ Proof.
   induction 1 as [|e ents He _ IH]; [cbn; lia|]. cbn [concat length]. rewrite app_length. lia.
 Qed.
 
-Lemma chunks_concat : forall ents : list (list N),
-  Forall (fun e => length e = 128%nat) ents -> chunks 128 (concat ents) = ents.
+Lemma filter_all_128 : forall ents : list (list N),
+  Forall (fun e => length e = 128%nat) ents ->
+  filter (fun c => (length c =? 128)%nat) ents = ents.
 Proof.
-  intros ents H. unfold chunks. apply chunks_aux_concat; [exact H|].
+  induction 1 as [|e ents He _ IH]; [reflexivity|]. cbn [filter]. rewrite He.
+  change (128 =? 128)%nat with true. cbn iota. rewrite IH. reflexivity.
+Qed.
+
+Lemma chunks_exact_concat : forall ents : list (list N),
+  Forall (fun e => length e = 128%nat) ents -> chunks_exact 128 (concat ents) = ents.
+Proof.
+  intros ents H. unfold chunks_exact, chunks.
+  rewrite chunks_aux_concat; [apply filter_all_128; exact H|exact H|].
   apply concat_length_128. exact H.
 Qed.
 
-Lemma from_slice_total : forall e ss, length e = 128%nat ->
-  exists d, directory_from_slice e ss = Ok d.
-Proof.
-  intros e ss H. unfold directory_from_slice. rewrite H.
-  change (128 <? 64)%nat with false. change (128 <? 120)%nat with false.
-  change (128 <? 124)%nat with false. change (128 <? 128)%nat with false. cbn iota.
-  destruct (ss =? 512); eexists; reflexivity.
-Qed.
-
-Lemma all_ok_map_total : forall ss (ents : list (list N)),
+Lemma map_outcome_total : forall ss (ents : list (list N)),
   Forall (fun e => length e = 128%nat) ents ->
-  exists ds, all_ok (map (fun c => directory_from_slice c ss) ents) = Ok ds /\
+  exists ds, map_outcome (fun c => from_slice c ss) ents = Ok ds /\
              length ds = length ents /\
              forall i e, nth_error ents i = Some e ->
-               exists d, nth_error ds i = Some d /\ directory_from_slice e ss = Ok d.
+               exists d, nth_error ds i = Some d /\ from_slice e ss = Ok d.
 Proof.
   intros ss. induction 1 as [|e ents He _ IH].
   - exists []. split; [reflexivity|]. split; [reflexivity|]. intros [|i] e H; discriminate.
-  - destruct IH as (ds & Hds & Hlen & Hnth). destruct (from_slice_total e ss He) as (d & Hd).
-    exists (d :: ds). cbn [map all_ok]. rewrite Hd, Hds. cbn [obind]. split; [reflexivity|].
+  - destruct IH as (ds & Hds & Hlen & Hnth).
+    exists ({| d_name := decode_name (firstn 64 e); d_start := u32_at e 116;
+               d_len := if ss =? 512 then u32_at e 120 else u64_at e 120 |} :: ds).
+    cbn [map_outcome]. rewrite (from_slice_128 e ss He), Hds. cbn [obind]. split; [reflexivity|].
     split; [cbn [length]; lia|]. intros [|i] e' H'.
-    + cbn [nth_error] in *. inversion H'. subst. exists d. split; [reflexivity|exact Hd].
+    + cbn [nth_error] in *. inversion H'. subst. eexists. split; [reflexivity|].
+      apply from_slice_128. exact He.
     + cbn [nth_error] in *. apply Hnth. exact H'.
 Qed.
 
 (* MAIN (directory-chain level): a directory chain of whole 128-byte entries, one of which — at
    any index — is the entry a writer lays out for the name EncryptedPackage (any bytes behind the
-   terminator, any other fields, any start and size), all other entries arbitrary: the directory
-   array is built without panic and the check answers Password *)
+   terminator, any other fields, any start and size), all other entries ARBITRARY bytes: the
+   directory array is built and the check answers Password *)
 Theorem encrypted_ooxml_is_password : forall before after_ pad mid start size ss zip,
   Forall (fun e => length e = 128%nat) before ->
   Forall (fun e => length e = 128%nat) after_ ->
@@ -274,21 +263,141 @@ Proof.
   set (ep := dir_entry_bytes ENCRYPTED_PACKAGE pad mid start size).
   destruct (directory_from_slice_name ENCRYPTED_PACKAGE pad mid start size ss eq_refl)
     as (s & l & Hep). fold ep in Hep.
-  assert (Hlen : length ep = 128%nat).
-  { unfold ep, dir_entry_bytes.
-    destruct (name_field_shape ENCRYPTED_PACKAGE pad) as (rest & _ & Hl64); [cbn; lia|].
-    rewrite !app_length, Hl64, firstn_length, app_length, repeat_length.
-    cbn [le_bytes length]. lia. }
+  assert (Hlen : length ep = 128%nat) by (apply dir_entry_length; cbn; lia).
   assert (Hall : Forall (fun e => length e = 128%nat) (before ++ ep :: after_)).
   { apply Forall_app. split; [exact Hb|]. constructor; assumption. }
-  destruct (all_ok_map_total ss _ Hall) as (ds & Hds & Hlen' & Hnth).
+  destruct (map_outcome_total ss _ Hall) as (ds & Hds & Hlen' & Hnth).
   destruct (Hnth (length before) ep) as (d & Hd & Hfs).
   { rewrite nth_error_app2 by lia. rewrite Nat.sub_diag. reflexivity. }
   rewrite Hep in Hfs. inversion Hfs. subst d.
-  exists ds. unfold parse_dirs. rewrite (chunks_concat _ Hall), Hds. cbn [obind].
-  assert (Hin : In (mkDentry ENCRYPTED_PACKAGE s l) ds) by (eapply nth_error_In; exact Hd).
+  exists ds. unfold parse_dirs. rewrite (chunks_exact_concat _ Hall), Hds. cbn [obind].
+  assert (Hin : In {| d_name := ENCRYPTED_PACKAGE; d_start := s; d_len := l |} ds)
+    by (eapply nth_error_In; exact Hd).
   destruct ds as [|d0 ds0]; [destruct Hin|]. split; [reflexivity|].
-  assert (Hhas : has_directory (d0 :: ds0) ENCRYPTED_PACKAGE = true).
+  assert (Hhas : PasswordCfb.has_directory (d0 :: ds0) ENCRYPTED_PACKAGE = true).
   { apply has_directory_iff. eexists. split; [exact Hin|reflexivity]. }
   unfold ooxml_new, ooxml_check. rewrite Hhas. split; reflexivity.
+Qed.
+
+(* ================================================================== any container layout *)
+(* MAIN (ooxml, positive, BYTES): for every container holding an object named EncryptedPackage
+   (any content, any size — mini stream or regular sectors —, any other streams and storages) and
+   EVERY valid physical layout of it (sector size, placement of FAT / DIFAT / directory / mini FAT
+   / mini stream / stream sectors, directory slots, free sectors, padding), the check on the
+   written bytes answers Password.  Composition with C13_written_names_listed. *)
+Theorem encrypted_ooxml_is_password_any_layout : forall c l fuel zip,
+  valid_layout c l -> (fuel_for l <= fuel)%nat ->
+  In ENCRYPTED_PACKAGE (all_names c) ->
+  ooxml_check_bytes fuel (cfb_write c l) = Err E_PASSWORD /\
+  ooxml_new_bytes fuel (cfb_write c l) zip = Err E_PASSWORD.
+Proof.
+  intros c l fuel zip Hv Hf Hin.
+  destruct (@written_names_listed c l fuel Hv Hf) as (cf & r & Hnew & Hnames).
+  destruct (Hnames _ Hin) as [_ Hhas]. rewrite has_directory_is_cfb in Hhas.
+  unfold ooxml_new_bytes, ooxml_check_bytes, ooxml_new, ooxml_check, cfb_dirs.
+  rewrite Hnew. cbn [obind fst]. rewrite Hhas. split; reflexivity.
+Qed.
+
+Corollary encrypted_stream_is_password_any_layout : forall c l fuel zip bytes,
+  valid_layout c l -> (fuel_for l <= fuel)%nat ->
+  In (ENCRYPTED_PACKAGE, bytes) (c_streams c) ->
+  ooxml_check_bytes fuel (cfb_write c l) = Err E_PASSWORD /\
+  ooxml_new_bytes fuel (cfb_write c l) zip = Err E_PASSWORD.
+Proof.
+  intros c l fuel zip bytes Hv Hf Hin. apply encrypted_ooxml_is_password_any_layout; try assumption.
+  unfold all_names. apply in_or_app. right.
+  change ENCRYPTED_PACKAGE with (fst (ENCRYPTED_PACKAGE, bytes)). apply in_map. exact Hin.
+Qed.
+
+(* the names of the directory array of a written container: the root entry, unused slots (empty
+   name), and the names of the container *)
+Lemma parsed_dirs_names : forall c l d, valid_layout c l -> In d (parsed_dirs c l) ->
+  d_name d = ROOT_NAME \/ d_name d = [] \/ In (d_name d) (all_names c).
+Proof.
+  intros c l d Hv Hin. unfold parsed_dirs in Hin. apply in_map_iff in Hin.
+  destruct Hin as (i & <- & _). unfold dir_item, dir_item_of.
+  destruct (i =? 0); [left; reflexivity|].
+  destruct (assocN i (slot_table c l)) as [it|] eqn:E; [|right; left; reflexivity].
+  right; right. apply assocN_Some_In in E. unfold slot_table in E. apply in_combine_r in E.
+  destruct (valid_dir Hv) as [_ [_ [_ [Hlc _]]]].
+  rewrite <- (items_names_eq c l Hlc). cbn [dirent_of_item d_name].
+  apply (in_map (fun it => fst (fst (fst it)))). exact E.
+Qed.
+
+(* MAIN (ooxml, converse, BYTES): a compound file written from a container without any object of
+   that name — in every valid layout — is not reported (an xls workbook handed to the xlsx
+   reader, say); the reader goes on to the zip *)
+Theorem no_encrypted_package_any_layout : forall c l fuel zip,
+  valid_layout c l -> (fuel_for l <= fuel)%nat ->
+  ~ In ENCRYPTED_PACKAGE (all_names c) ->
+  ooxml_check_bytes fuel (cfb_write c l) = Ok tt /\
+  ooxml_new_bytes fuel (cfb_write c l) zip = zip.
+Proof.
+  intros c l fuel zip Hv Hf Hnot.
+  destruct (@cfb_new_written c l fuel Hv Hf) as (cf & r & Hnew & Hdirs & _).
+  unfold ooxml_new_bytes, ooxml_check_bytes, ooxml_new, ooxml_check, cfb_dirs.
+  rewrite Hnew. cbn [obind fst]. rewrite Hdirs.
+  destruct (PasswordCfb.has_directory (parsed_dirs c l) ENCRYPTED_PACKAGE) eqn:E;
+    [|split; reflexivity].
+  exfalso. apply has_directory_iff in E. destruct E as (d & Hin & Hd).
+  destruct (parsed_dirs_names c l d Hv Hin) as [H|[H|H]]; rewrite Hd in H;
+    [discriminate|discriminate|exact (Hnot H)].
+Qed.
+
+(* ================================================================== totality *)
+Lemma ooxml_check_fine : forall o : outcome (list dirent),
+  (o <> Panic -> ooxml_check o <> Panic) /\ (o <> OutOfFuel -> ooxml_check o <> OutOfFuel).
+Proof.
+  intros o. unfold ooxml_check. destruct o as [dirs|e| |]; split; intros H; try discriminate;
+    try (destruct (PasswordCfb.has_directory dirs ENCRYPTED_PACKAGE); discriminate);
+    contradiction.
+Qed.
+
+Lemma cfb_dirs_fine : forall fuel file,
+  cfb_dirs fuel file <> Panic /\
+  (lenN file / 512 < N.of_nat fuel -> cfb_dirs fuel file <> OutOfFuel).
+Proof.
+  intros fuel file. destruct (cfb_new_total fuel file) as [Hp Hf]. unfold cfb_dirs. split.
+  - destruct (cfb_new fuel file) as [cr|e| |]; cbn [obind]; try discriminate. contradiction.
+  - intros Hlt. specialize (Hf Hlt).
+    destruct (cfb_new fuel file) as [cr|e| |]; cbn [obind]; try discriminate. contradiction.
+Qed.
+
+(* MAIN (totality): no file at all makes the model of check_for_password_protected panic, and
+   fuel above the number of 512-byte blocks of the file is never exhausted *)
+Theorem ooxml_check_bytes_total : forall fuel file,
+  ooxml_check_bytes fuel file <> Panic /\
+  (lenN file / 512 < N.of_nat fuel -> ooxml_check_bytes fuel file <> OutOfFuel).
+Proof.
+  intros fuel file. destruct (cfb_dirs_fine fuel file) as [Hp Hf]. unfold ooxml_check_bytes.
+  destruct (ooxml_check_fine (cfb_dirs fuel file)) as [H1 H2]. split.
+  - apply H1. exact Hp.
+  - intros Hlt. apply H2. apply Hf. exact Hlt.
+Qed.
+
+Lemma fuel_of_file_enough : forall file, lenN file / 512 < N.of_nat (fuel_of_file file).
+Proof.
+  intros file. unfold fuel_of_file. rewrite lenN_length.
+  rewrite Nat2N.inj_succ, Nat2N.inj_div. change (N.of_nat 512) with 512. lia.
+Qed.
+
+Corollary ooxml_check_bytes_no_panic : forall file,
+  ooxml_check_bytes (fuel_of_file file) file <> Panic /\
+  ooxml_check_bytes (fuel_of_file file) file <> OutOfFuel.
+Proof.
+  intros file. destruct (ooxml_check_bytes_total (fuel_of_file file) file) as [H1 H2].
+  split; [exact H1|]. apply H2. apply fuel_of_file_enough.
+Qed.
+
+(* the directory-array step alone: chunks_exact hands from_slice whole entries only *)
+Theorem parse_dirs_total : forall chain ss,
+  parse_dirs chain ss <> Panic /\ parse_dirs chain ss <> OutOfFuel.
+Proof.
+  intros chain ss. unfold parse_dirs.
+  assert (H : forall ents : list (list N), Forall (fun e => length e = 128%nat) ents ->
+            exists ds, map_outcome (fun c => from_slice c ss) ents = Ok ds).
+  { intros ents He. destruct (map_outcome_total ss ents He) as (ds & Hds & _). eauto. }
+  destruct (H (chunks_exact 128 chain)) as (ds & Hds).
+  { apply Forall_forall. intros b Hb. exact (chunks_exact_lengths _ _ _ Hb). }
+  rewrite Hds. cbn [obind]. destruct ds; split; discriminate.
 Qed.
